@@ -16,7 +16,8 @@ Import-free.
 -/
 namespace MidnightZK.C14
 
-/-- `poly/query.rs: trait Query` seen as data. -/
+/-- `poly/query.rs: trait Query` seen as data (`get_commitment`, `get_point`, `get_eval`; the
+label of `get_commitment_label` is irrelevant to the grouping and to the verdict). -/
 structure Query (C P E : Type) where
   com : C
   point : P
